@@ -164,6 +164,7 @@ def parseRes (s : String) : Option (Option Res) :=
   | "0" => some (some .fail)
   | "x" => some (some .threw)
   | "-" => some none
+  | "c" => some none      -- call skipped by the harness (would crash the process)
   | _ => none
 
 /-- nearest binary64 to a positive decimal, as an exact decimal (what `strtod` returns for the literal) -/
@@ -247,6 +248,9 @@ structure DSt where
   parsedOk : Nat := 0
   parsedBad : Nat := 0
   caseInteresting : Bool := false
+  /-- a create of this case produced foreign statements or an object under another name (reported by the spec):
+      the one-object state machine no longer describes the case, state comparison is suspended -/
+  tainted : Bool := false
   nontrivial : Nat := 0
   mismatches : Nat := 0
   specfails : Nat := 0
@@ -291,7 +295,7 @@ def handle (d : DSt) (n : Nat) (line : String) : IO DSt := do
     match parseWorld kv with
     | some w =>
       return { d with before := w, st := stOfWorld w [] [], deps := [], fileOf := [], caseNo := d.caseNo + 1,
-                      caseInteresting := false, caseFailed := [] }
+                      caseInteresting := false, caseFailed := [], tainted := false }
     | none => IO.println s!"BADLINE line={n}"; return d
   | ["create", ty, nameH, ioe, tmplE, attrsE] =>
     let inp : Option CreateIn := do
@@ -349,9 +353,11 @@ def handle (d : DSt) (n : Nat) (line : String) : IO DSt := do
         let clean := match o.cfg with
           | some cfg => structurePreserved i o cfg
           | none => true
-        if clean && o.cfg.isSome && some mres != o.res then
+        let orphan := o.res == some .ok && !present && o.after != d.before
+        if !clean || orphan then d := { d with tainted := true }
+        if !d.tainted && o.cfg.isSome && some mres != o.res then
           d ← mismatch d n "create-result" s!"impl={repr o.res} model={repr mres}"
-        if clean && viewSt mst != viewWorld o.after then
+        if !d.tainted && viewSt mst != viewWorld o.after then
           d ← mismatch d n "create-state" s!"impl={viewWorld o.after} model={viewSt mst}"
         -- 3. the model's reading of the generated text vs the object the compiler built
         match o.cfg with
@@ -400,9 +406,9 @@ def handle (d : DSt) (n : Nat) (line : String) : IO DSt := do
       let mut d := { d with steps := d.steps + 1, deletes := d.deletes + 1 }
       if found then
         let (mst, mres) := deleteObject d.st k c
-        if some mres != res then
+        if !d.tainted && some mres != res then
           d ← mismatch d n "delete-result" s!"impl={repr res} model={repr mres}"
-        if viewSt mst != viewWorld after then
+        if !d.tainted && viewSt mst != viewWorld after then
           d ← mismatch d n "delete-state" s!"impl={viewWorld after} model={viewSt mst}"
       let file := (d.fileOf.find? (·.1 = k)).map (·.2)
       match specDelete d.before k c found res file d.deps after with
